@@ -296,6 +296,8 @@ func TestC14(t *testing.T) {
 	}
 	c.Exhaustive(fmt.Sprintf("md4, ripemd160 x every length 0..%d x {whole, 2 parts with Sum, Sum, Write at the cut: every cut for lengths <= 140, else 1/55/56/63/64/65/half/len-1; byte-by-byte up to 130}", maxLen), total)
 
+	c14Concurrent(c, t)
+
 	// python3 hashlib as one batched co-process (RIPEMD-160 only: this OpenSSL
 	// build does not expose MD4 to hashlib).
 	if k, _ := ev.Shard(); k == 0 && len(pyMsgs) > 0 {
